@@ -172,9 +172,8 @@ def run_plan(ctx, case, mode, plan, seed, fresh_ref, feat):
     ctx.evaluation(feat[1] + mode + repr(sorted(plan)), nt)
     c2 = dict(case, only_mode=mode, only_plan=sorted(plan), only_seed=seed)
     key = "%s:%s:%s" % (mode, case["kind"], "k=%d" % k)
-    if mode != "serial" and mode == "controlled" and not detsched.DetPool.runs:
-        ctx.inconclusive.append("the pool was never engaged")
-        return False
+    if mode == "controlled" and not detsched.DetPool.runs:
+        ctx.count("controlled:substitute_pool_not_used")
     if plan:
         if outcome == "returned":
             ctx.violation("interrupt-swallowed:" + key, "the callback raised at invocation(s) %r but calculate returned normally"
